@@ -15,7 +15,20 @@ let parse_step s =
 let parse_script s = if s = "" then [] else List.map parse_step (split ',' s)
 let starts p s = String.length s >= String.length p && String.sub s 0 (String.length p) = p
 let after p s = String.sub s (String.length p) (String.length s - String.length p)
-let parse_op o =
+let ext_born : (int, unit) Hashtbl.t = Hashtbl.create 16   (* ordinals of members inserted through Extend::extend: their keys are not reported *)
+let n_inserted = ref 0
+let rec parse_ops o =
+  if starts "ext(" o then begin
+    (* Extend::extend = reserve(len of the iterator) followed by one insert per element *)
+    let inner = after "ext(" o in let inner = String.sub inner 0 (String.length inner - 1) in
+    let scs = split ';' inner in
+    OMut (nat_of_int 2, nat_of_int (List.length scs), []) ::
+    List.map (fun sc -> Hashtbl.replace ext_born !n_inserted (); incr n_inserted; OMut (nat_of_int 0, O, parse_script sc)) scs
+  end else begin
+    (if starts "ins(" o then incr n_inserted);
+    [parse_op o]
+  end
+and parse_op o =
   if starts "ins(" o then (let sc = after "ins(" o in let sc = String.sub sc 0 (String.length sc - 1) in OMut (nat_of_int 0, O, parse_script sc))
   else if starts "rm" o then OMut (nat_of_int 1, nat_of_int (int_of_string (after "rm" o)), [])
   else if starts "rsv" o then OMut (nat_of_int 2, nat_of_int (int_of_string (after "rsv" o)), [])
@@ -60,7 +73,8 @@ let () =
       | id :: comb :: cont :: nstr :: rest ->
         let n = int_of_string (String.sub nstr 2 (String.length nstr - 2)) in
         let scripts = if n = 0 || cont = "group" then [] else List.map parse_script (split ';' (match rest with s :: _ -> s | [] -> "")) in
-        let ops = List.map parse_op (List.filter (fun s -> s <> "") (split ' ' ops)) in
+        Hashtbl.reset ext_born; n_inserted := 0;
+        let ops = List.concat_map parse_ops (List.filter (fun s -> s <> "") (split ' ' ops)) in
         (* the arity-0 tuple impls are separate hand-written impls: their behaviour is the slice algorithm at n = 0 *)
         let tuple = (cont = "tuple" && n > 0) in
         keyed := (comb = "fgroup_keyed" || comb = "sgroup_keyed"); Hashtbl.reset first_seen;
@@ -77,7 +91,10 @@ let () =
           | "fgroup" | "fgroup_keyed" -> run_group selective false (nat_of_int n) ops
           | "sgroup" | "sgroup_keyed" -> run_group selective true (nat_of_int n) ops
           | _ -> failwith "comb" in
-        print_endline (String.concat " " (id :: List.map show_ev tr))
+        (* the keys of members born through extend are not observable: their K tokens are printed as a bare `k` (the i-th EK belongs to the i-th insert) *)
+        let nk = ref 0 in
+        let toks = List.map (fun e -> match e with EK _ -> let i = !nk in incr nk; if Hashtbl.mem ext_born i then "k" else show_ev e | _ -> show_ev e) tr in
+        print_endline (String.concat " " (id :: toks))
       | _ -> failwith "case"
     end
   done with End_of_file -> ()
